@@ -84,6 +84,8 @@ def shards(tier, seed, scale=1.0):
         out.append({'name': 'real-%d' % s, 'kind': 'real', 'shard': s, 'of': 4, 'budget': 3 if tier == 'quick' else 4})
     for s in range(4):
         out.append({'name': 'unclosed-%d' % s, 'kind': 'unclosed', 'shard': s, 'of': 4, 'budget': 2 if tier == 'quick' else 3})
+    for s in range(4):
+        out.append({'name': 'newline-%d' % s, 'kind': 'newline', 'shard': s, 'of': 4, 'budget': 2 if tier == 'quick' else 3})
     return out
 
 
@@ -100,6 +102,8 @@ def run_shard(desc):
         return run_real(desc)
     if desc['kind'] == 'unclosed':
         return run_unclosed(desc)
+    if desc['kind'] == 'newline':
+        return run_newline(desc)
     raise HarnessError(desc['kind'])
 
 
@@ -146,6 +150,29 @@ def run_real(desc):
                 if any(isinstance(x, str) for x in segs) or len(segs) > 1:
                     out.nontrivial(('real', text))
     out.sample({'stream': 'real', 'tree': [e[1] + ('/' if e[0] == 'd' else '') for e in REAL_TREE], 'patterns': idx // S})
+    return out
+
+
+def run_newline(desc):
+    """The same enumeration over an alphabet that contains a newline, in patterns and in paths: a newline is an ordinary
+    character (`.` and `$` of the generated regex must not treat it specially)."""
+    out = Outcome()
+    out.exhaustive = True
+    armed = desc['armed']
+    s, S = desc['shard'], desc['of']
+    idx = 0
+    paths = list(N.all_names('a\n/.', 4))
+    cfgs = [{}, {'globstar': True}, {'dot': True, 'globstar': True}, {'matchbase': True}, {'globstar': True, 'matchbase': True, 'dot': True},
+            {'nodir': True, 'globstar': True}, {'globstarlong': True, 'dot': True}]
+    for segs in enum_pathpats(desc['budget'], atoms=(A.lit('a'), A.lit('\n'), A.ANY, A.STAR, A.lit('.'), A.mkset(True, ('c', 'a')))):
+        idx += 1
+        if idx % S != s:
+            continue
+        for pp in (A.PathPat(False, segs, False, 1), A.PathPat(False, segs, True, 1)):
+            for j in (0, 1 + idx % (len(cfgs) - 1), 1 + (idx // 5) % (len(cfgs) - 1)):
+                cfg = cfgs[j]
+                lang.eval_path(pp, cfg, paths, out, armed, PROPERTY, select_c02(cfg), entry=idx % 3, stream='newline')
+    out.sample({'stream': 'newline', 'alphabet': 'a\\n/.', 'paths': len(paths), 'patterns': idx // S})
     return out
 
 
